@@ -101,7 +101,7 @@ def main():
                      "kind_free_text": "deterministic simulator: seeded scheduler over client steps and fault plans, instrumented item/priority/hasher/allocator/source seams, reference model, worker processes with abort classification, delta-debugging shrinker, replay files"}],
         "checks": checks,
         "not_applicable": na,
-        "notes": "All checks: ./check <Cxx> <quick|thorough>; VERIF_SEED (default 1) selects the PRNG seed; exit 0/1/2 = held / VIOLATION printed / harness error. Thorough tiers of C04 C08 C09 C10 C13 C16 end with a single-process batch of the same engine under Miri (Tree Borrows); ./check <Cxx> miri runs that batch alone; ./check selftest determinism compares 1-process and 16-process executions. Known findings: /verif/known_findings.json (one known entry: C08, late write through an iter_mut reference). Independently written breaking changes and which check reports which: /verif/seeded/KILL_MATRIX.md.",
+        "notes": "All checks: ./check <Cxx> <quick|thorough>; VERIF_SEED (default 1) selects the PRNG seed; exit 0/1/2 = held / VIOLATION printed / harness error. Thorough tiers of C04 C07 C08 C09 C10 C13 C15 C16 C17 end with a single-process batch of the same engine under Miri (Tree Borrows); ./check <Cxx> miri runs that batch alone; ./check selftest determinism compares 1-process and 16-process executions. Known findings: /verif/known_findings.json (one known entry: C08, late write through an iter_mut reference). Independently written breaking changes and which check reports which: /verif/seeded/KILL_MATRIX.md.",
     }
     json.dump(m, open('/verif/MANIFEST.json','w'), indent=1)
 
